@@ -366,7 +366,8 @@ open MW.Lemmas.Deepen3 in
 /-- CRASH_EQUIV (goal 1). Histories of the persistence model itself (`SysQ`: node chain, VOLATILE notification
     queue, store, volatile state; `EvQ`): node extends / reorganises to any branch, handler steps in any
     interleaving (each the real `opBlock`: extension, reorganisation, stale and duplicate notifications),
-    CreateWallet, NewAddress, and `crash` events — any number, after ANY event, i.e. at EVERY commit boundary,
+    CreateWallet, NewAddress, unconfirmed transactions (`recvTx`: delivered at any time, seen before or not — they
+    write pending buckets only, `JQ_recvTx`), and `crash` events — any number, after ANY event, i.e. at EVERY commit boundary,
     quiet or not (the notification queue is lost; `Model.Persist.crash` runs boot + Start with the D42 resync).
     The same history run with the crashes executed and with the crashes ignored: if the run that never stops ends
     with nothing pending, so does the crashing run, on the same node chain, with the SAME keystore buckets and key
